@@ -2413,6 +2413,11 @@ func constTableLookup(st *ConcState, tbl, key ssa.Value) (v ssa.Value, found, kn
 			if z := intConst(0, at.Elem()); z != nil {
 				return z, true, true
 			}
+			switch types.Unalias(at.Elem()).Underlying().(type) {
+			case *types.Signature, *types.Pointer, *types.Interface, *types.Slice, *types.Map, *types.Chan:
+				// a table of functions (pointers, …): the entry the literal leaves out is nil
+				return ssa.NewConst(nil, at.Elem()), true, true
+			}
 		}
 		return nil, false, false
 	}
